@@ -324,7 +324,8 @@ class BaseCommand(FlockMixin, ABC):
         try:
             await self._db_insert_run_meta()
             exit_code = await self.run()
-        except KeyboardInterrupt:
+        except (KeyboardInterrupt, asyncio.CancelledError):
+            # Under asyncio.run() Ctrl-C arrives as a cancellation of this (the main) task.
             exit_code = 128 + signal.SIGINT
         # Ensure that META.json gets written in the case a
         # command calls sys.exit().
